@@ -27,7 +27,7 @@ ASSUMPTIONS = [
     'bit-exact comparison treats -0.0 and 0.0 as the same value',
 ]
 ANCHORS = ['Table.filter', 'Table.remove_empty', 'Table.head']
-REQUIRED = ['predicate_calls_checked', 'filter_by_ids', 'filter_by_predicate',
+REQUIRED = ['tables_with_non_finite_values', 'predicate_calls_checked', 'filter_by_ids', 'filter_by_predicate',
             'remove_empty_calls', 'head_calls', 'unknown_id_refused',
             'layout_unsorted_seen', 'layout_csc_seen']
 
@@ -297,6 +297,16 @@ def run_random(ctx, index):
     ids = spec.ids(axis)
     kind = r.choice(['ids', 'ids', 'pred-value', 'pred-value', 'remove_empty',
                      'head', 'unknown', 'pred-ids'])
+    if kind in ('remove_empty', 'ids', 'head') and spec.D.any() and \
+            r.random() < .2:
+        # a vector holding inf / nan is not an all-zero vector
+        nzr, nzc = np.nonzero(spec.D)
+        q = r.randrange(len(nzr))
+        spec.D[nzr[q], nzc[q]] = r.choice([float('nan'), float('inf'),
+                                           float('-inf')])
+        desc0 = {'table': spec.describe(), 'recipe': recipe,
+                 'non_finite': True}
+        ctx.count('tables_with_non_finite_values')
     invert = r.random() < .4
     inplace = r.random() < .5
     if kind in ('ids', 'pred-ids'):
